@@ -405,7 +405,7 @@ int verify_stats_signal(struct jls_rd_s *rd, const model_t *m, int sig, const ve
  * annotations (C11)
  * ===================================================================================== */
 typedef struct { int64_t ts; uint8_t atype, stype, group; float y; uint32_t size; uint64_t h; } anno_rec_t;
-typedef struct { anno_rec_t *a; size_t n, cap; size_t stop_after; size_t calls; int corrupt; } anno_coll_t;
+typedef struct { anno_rec_t *a; size_t n, cap; size_t stop_after; size_t calls; int corrupt; int32_t stop_value; } anno_coll_t;
 
 static int32_t anno_cbk(void *ud, const struct jls_annotation_s *a) {
     anno_coll_t *c = ud;
@@ -416,7 +416,7 @@ static int32_t anno_cbk(void *ud, const struct jls_annotation_s *a) {
     r->size = a->data_size;
     r->h = fnv1a(a->data, a->data_size, FNV_INIT);
     if (a->rsv64_1 || a->rsv8_1) c->corrupt = 1;
-    if (c->stop_after && c->n >= c->stop_after) return 1;
+    if (c->stop_after && c->n >= c->stop_after) return c->stop_value ? c->stop_value : 1;   /* any non-zero value asks to stop */
     return 0;
 }
 
@@ -485,6 +485,7 @@ int verify_annotations(struct jls_rd_s *rd, const model_t *m, int sig, const ver
         anno_coll_t k; memset(&k, 0, sizeof(k));
         size_t stop = rng_chance(r, 1, 4) ? (size_t) rng_range(r, 1, 3) : 0;
         k.stop_after = stop;
+        { static const int32_t sv[] = {1, 2, -1, INT32_MAX, INT32_MIN, -2, 7}; k.stop_value = sv[rng_below(r, 7)]; }
         v_api("jls_rd_annotations");
         rc = jls_rd_annotations(rd, (uint16_t) sig, t, anno_cbk, &k);
         v_api("");
